@@ -18,6 +18,14 @@ type HCase struct {
 	TS      vk.Str `json:"tracestate"`
 	Prior   bool   `json:"prior"`   // the context handed to Extract already carries a span
 	Carrier string `json:"carrier"` // map | header
+	// Decoys: further entries in the carrier's underlying storage that the
+	// carrier's documented addressing does NOT reach for "traceparent" /
+	// "tracestate" (http.Header: verbatim non-canonical keys; map: other
+	// spellings) or that belong to unrelated names. They are not the headers
+	// Extract was given. Entries that would alias the two fields are skipped
+	// by Run, so every encoding of the case is meaningful.
+	Decoys []PreEntry `json:"decoys,omitempty"`
+	Prop   string     `json:"prop,omitempty"` // form of the propagator, see forms_test.go
 }
 
 func genH(t *rapid.T) HCase {
@@ -33,6 +41,10 @@ func genH(t *rapid.T) HCase {
 	}
 	c.Prior = rapid.Bool().Draw(t, "prior")
 	c.Carrier = rapid.SampledFrom([]string{"map", "map", "header"}).Draw(t, "carrier")
+	if rapid.IntRange(0, 3).Draw(t, "withdecoys") == 0 {
+		c.Decoys = genPre().Draw(t, "decoys")
+	}
+	c.Prop = rapid.SampledFrom(propForms).Draw(t, "propagator_form")
 	return c
 }
 
@@ -89,12 +101,33 @@ func checkTraceStateValue(ts trace.TraceState, what string, bad func(kind, forma
 func runH(c HCase) ([]vk.Violation, vk.Info) {
 	var vs []vk.Violation
 	var info vk.Info
-	bad := func(kind, format string, a ...any) { vs = append(vs, vk.V(kind, format, a...)) }
 	tp, tsh := string(c.TP), string(c.TS)
-	prop := propagation.TraceContext{}
+	prop := newProp(c.Prop)
+	info.ClassIf(c.Prop != "" && c.Prop != "direct", "composite_propagator")
+
+	// decoys: only entries that do not alias the two fields
+	var decoys []PreEntry
+	probe := newStore(c.Carrier)
+	for _, e := range c.Decoys {
+		if probe.addresses(e, "traceparent") || probe.addresses(e, "tracestate") {
+			continue
+		}
+		decoys = append(decoys, e)
+	}
+	probe.classify(decoys, &info)
+	pre := describePre(decoys)
+	bad := func(kind, format string, a ...any) {
+		v := vk.V(kind, format, a...)
+		v.Msg += pre
+		vs = append(vs, v)
+	}
 
 	mk := func(withTS bool) propagation.TextMapCarrier {
-		car := newCarrier(c.Carrier)
+		st := newStore(c.Carrier)
+		for _, e := range decoys {
+			st.apply(e)
+		}
+		car := st.carrier()
 		if c.HasTP {
 			car.Set("traceparent", tp)
 		}
@@ -281,9 +314,9 @@ func TestHeaders(t *testing.T) {
 		Property: "C03", Check: "headers",
 		Rule: "traceparent values: grammar-generated (versions 00/01/fe/ff/.., zero / corner / random ids, flags, suffixes) with 0..3 structured edits (case flip of one hex letter, upper-casing, byte delete / insert / replace with ASCII, multi-byte runes and bytes >= 0x80, truncation, decorated ends, damaged dashes), W3C and repository examples, near-miss hex runs, hostile text; " +
 			"tracestate values: absent, member lists of 0..40 members (31/32/33, duplicate keys, odd keys and values with multi-byte runes whose low byte is a legal character and raw bytes >= 0x80, 256/257-byte values and keys, 241/242@14/15 tenants, blanks/tabs, empty and broken members), examples, hostile text; " +
+			"carrier: map or http.Header, in a quarter of the cases also holding 1..5 decoy entries the carrier's addressing does not reach (verbatim non-canonical spellings in an http.Header, other spellings in a map, unrelated names) with values that would be valid trace headers; propagator: bare or composite with a Baggage neighbour; " +
 			"non-trivial = traceparent reaches past the length check (>= 55 bytes and >= 3 dashes) or the tracestate has >= 2 members; distinct = distinct case encodings",
 		Quick: 60000, Thorough: 600000,
 		Gen: genH, Run: runH,
 	})
 }
-
